@@ -80,14 +80,15 @@ Cat ==
 \* struct, each with a value that is filled down to the leaf and one that is nil at its innermost constructor
 Ctors == {"ptr", "slice", "map"}
 Wrap(cn, t) == CASE cn = "ptr" -> TPtr(t) [] cn = "slice" -> TSlice(t) [] OTHER -> TMap(t)
-WrapV(cn, x) == CASE cn = "ptr" -> VPtr(x) [] cn = "slice" -> VSlice(<<x>>) [] OTHER -> VMap(<<KV(<<107>>, x)>>)
+\* (member names differ per nesting level: a name that leaks from one level to another must show)
+WrapV(cn, x, lvl) == CASE cn = "ptr" -> VPtr(x) [] cn = "slice" -> VSlice(<<x>>) [] OTHER -> VMap(<<KV(<<106 + lvl>>, x)>>)
 NestBases == {<<tInt, Leaf(tInt, 1)>>, <<tStr, Leaf(tStr, 1)>>, <<S1, S1Val(1, 1)>>}
 Nest2 ==
-  {<<Wrap(c1, Wrap(c2, b[1])), WrapV(c1, WrapV(c2, b[2]))>> : c1 \in Ctors, c2 \in Ctors, b \in NestBases}
-  \cup {<<Wrap(c1, Wrap(c2, b[1])), WrapV(c1, VNil(c2))>> : c1 \in Ctors, c2 \in Ctors, b \in NestBases}
+  {<<Wrap(c1, Wrap(c2, b[1])), WrapV(c1, WrapV(c2, b[2], 2), 1)>> : c1 \in Ctors, c2 \in Ctors, b \in NestBases}
+  \cup {<<Wrap(c1, Wrap(c2, b[1])), WrapV(c1, VNil(c2), 1)>> : c1 \in Ctors, c2 \in Ctors, b \in NestBases}
 Nest3 ==
-  {<<Wrap(c1, Wrap(c2, Wrap(c3, b[1]))), WrapV(c1, WrapV(c2, WrapV(c3, b[2])))>> : c1 \in Ctors, c2 \in Ctors, c3 \in Ctors, b \in NestBases}
-  \cup {<<Wrap(c1, Wrap(c2, Wrap(c3, b[1]))), WrapV(c1, WrapV(c2, VNil(c3)))>> : c1 \in Ctors, c2 \in Ctors, c3 \in Ctors, b \in NestBases}
+  {<<Wrap(c1, Wrap(c2, Wrap(c3, b[1]))), WrapV(c1, WrapV(c2, WrapV(c3, b[2], 3), 2), 1)>> : c1 \in Ctors, c2 \in Ctors, c3 \in Ctors, b \in NestBases}
+  \cup {<<Wrap(c1, Wrap(c2, Wrap(c3, b[1]))), WrapV(c1, WrapV(c2, VNil(c3), 2), 1)>> : c1 \in Ctors, c2 \in Ctors, c3 \in Ctors, b \in NestBases}
 
 \* tag variants: [tname, tb, opts]
 Tags ==
